@@ -387,6 +387,39 @@ let () = reg "dtgtread" (fun args ->
        hex_of_ints (List.map (fun n -> int_of_string (decimal_of_n n)) (write_dtargets ts)))
   | _ -> "BAD")
 
+(* gate decompositions (Mpp.v). Targets: X5 !Y3 Z0 (Pauli targets), * (combiner), b7 (classical bit). *)
+let mtgt_of_tok (t : Stdlib.String.t) : mtgt =
+  if t = "*" then MComb
+  else if t.[0] = 'b' then MBit (nat_of_int (int_of_string (Stdlib.String.sub t 1 (Stdlib.String.length t - 1))))
+  else
+    let inv = t.[0] = '!' in
+    let t' = if inv then Stdlib.String.sub t 1 (Stdlib.String.length t - 1) else t in
+    let (x, z) = pz_of_char t'.[0] in
+    MP (x, z, inv, nat_of_int (int_of_string (Stdlib.String.sub t' 1 (Stdlib.String.length t' - 1))))
+let show_oinstrs (l : (ogate * otgt list) list) : Stdlib.String.t =
+  let gname = function GH -> "H" | GHYZ -> "H_YZ" | GCX -> "CX" | GM -> "M" | GMPAD -> "MPAD" | GS -> "S" | GSDAG -> "S_DAG" in
+  let tname = function OQ (q, inv) -> (if inv then "!" else "") ^ string_of_int (int_of_nat q) | OB b -> "b" ^ string_of_int (int_of_nat b) in
+  Stdlib.String.concat " ; " (List.map (fun (g, ts) -> Stdlib.String.concat " " (gname g :: List.map tname ts)) l)
+let () = reg "mpp" (fun args ->
+  match args with
+  | n :: toks -> (match decompose_mpp (nat_of_int (int_of_string n)) (List.map mtgt_of_tok toks) with
+                  | Some l -> "OK " ^ show_oinstrs l | None -> "ERR")
+  | _ -> "BAD")
+let () = reg "spp" (fun args ->
+  match args with
+  | n :: dag :: toks -> (match decompose_spp (nat_of_int (int_of_string n)) (dag = "1") (List.map mtgt_of_tok toks) with
+                         | Some l -> "OK " ^ show_oinstrs l | None -> "ERR")
+  | _ -> "BAD")
+let () = reg "pairsegs" (fun args ->
+  let ps = List.map (fun t -> match Stdlib.String.split_on_char ',' t with
+    | [a; b] -> (nat_of_int (int_of_string a), nat_of_int (int_of_string b)) | _ -> failwith "pair") args in
+  "OK " ^ Stdlib.String.concat " ; " (List.map (fun seg ->
+    Stdlib.String.concat " " (List.map (fun (a, b) -> string_of_int (int_of_nat a) ^ " " ^ string_of_int (int_of_nat b)) seg)) (pair_segments ps)))
+let () = reg "revsegs" (fun args ->
+  let ts = List.map (fun t -> if t = "-" then None else Some (nat_of_int (int_of_string t))) args in
+  "OK " ^ Stdlib.String.concat " ; " (List.map (fun seg ->
+    Stdlib.String.concat " " (List.map (function Some q -> string_of_int (int_of_nat q) | None -> "-") seg)) (rev_segments ts)))
+
 let () =
   (try
      while true do
